@@ -289,6 +289,10 @@ class Executor:
         if isinstance(v, Obj):
             t = self.world.obj_truth(v)
             return t
+        if hasattr(v, "_symmatch"):
+            return True
+        if hasattr(v, "_symstr"):
+            return v.length() > 0 if hasattr(v, "chars") else True
         if v is NotImplemented:
             return True
         if isinstance(v, (types.FunctionType, type, types.ModuleType, BoundMethod, Closure)):
@@ -365,6 +369,7 @@ class Executor:
         parts = []
         exprs = [v.value for v in e.values if isinstance(v, ast.FormattedValue)]
         for s, vs in self.evs(exprs, st):
+            s = s.fork()  # _format_padded_int adds definitions to the path condition
             it = iter(vs)
             out = []
             ok = True
@@ -373,9 +378,10 @@ class Executor:
                     out.append(v.value)
                 else:
                     x = next(it)
-                    if is_sym(x) or isinstance(x, Obj):
+                    if is_sym(x) or isinstance(x, Obj) or hasattr(x, "_symstr"):
                         ok = False
-                        out.append(self.world.sym_format(x, v))
+                        dec = self._format_padded_int(s, x, v)
+                        out.append(dec if dec is not None else self.world.sym_format(x, v))
                     else:
                         spec = ""
                         if v.format_spec is not None:
@@ -387,6 +393,36 @@ class Executor:
                 yield s, "".join(out)
             else:
                 yield s, self.world.sym_concat(out)
+
+    def _format_padded_int(self, st, x, fv):
+        """f"{x:0Nd}" for a symbolic int that is provably in 0 .. 10**N - 1 on this path: a CharStr of N fresh
+        digits d with sum(d[i] * 10**(N-1-i)) == x (the decimal expansion is unique, so this is a definition, not
+        an assumption).  Anything else falls back to the abstract string."""
+        import re as _re
+
+        if not (is_sym(x) and z3.is_int(x)) or fv.format_spec is None or fv.conversion != -1:
+            return None
+        spec = "".join(c.value for c in fv.format_spec.values if isinstance(c, ast.Constant))
+        m = _re.fullmatch(r"0(\d)d", spec)
+        if m is None:
+            return None
+        n = int(m.group(1))
+        chk = z3.Solver()
+        chk.set("timeout", 5000)
+        for c in st.pc:
+            chk.add(z(c))
+        chk.add(z3.Not(z3.And(x >= 0, x < 10 ** n)))
+        if chk.check() != z3.unsat:
+            return None
+        from .strings import CharStr
+
+        ds = [self.fresh.int("dec") for _ in range(n)]
+        val = 0
+        for d in ds:
+            st.assume(z3.And(d >= 0, d <= 9))
+            val = val * 10 + d
+        st.assume(val == x)
+        return CharStr(ds)
 
     def ev_Attribute(self, e, st):
         for s, base in self.ev(e.value, st):
@@ -415,6 +451,11 @@ class Executor:
             return
         if isinstance(base, (str, tuple, list, dict, bytes)):
             yield st, BoundMethod(base, getattr(type(base), attr), type(base))
+            return
+        if hasattr(base, "chars") and hasattr(base, "_symstr"):
+            from . import strings
+
+            yield st, strings.Method(base, attr)
             return
         sv = w.special_getattr(self, st, base, attr, line)
         if sv is not NotImplemented:
@@ -580,12 +621,19 @@ class Executor:
                     raise Unsupported(f"symbolic `in` at line {line}")
             elif isinstance(b, Obj):
                 raise Unsupported(f"`in` on object at line {line}")
+            elif hasattr(b, "chars") and hasattr(b, "_symstr"):
+                from . import strings
+
+                r = strings.contains(a, b, line)
             else:
                 r = a in b
             yield st, (r if isinstance(op, ast.In) else sym.Not(r))
             return
         if isinstance(a, Obj) or isinstance(b, Obj):
             yield from self.world.obj_compare(self, st, op, a, b, line)
+            return
+        if (hasattr(a, "_symstr") or hasattr(b, "_symstr")) and a is not None and b is not None:
+            yield st, self.world.symstr_compare(op, a, b, line)
             return
         if a is None or b is None or isinstance(a, str) or isinstance(b, str) or isinstance(a, (tuple, list)):
             if is_sym(a) or is_sym(b):
@@ -866,6 +914,11 @@ class Executor:
             return
         if isinstance(fn, Closure):
             yield from self.call_closure(st, fn, args, kw, line)
+            return
+        from . import strings
+
+        if isinstance(fn, strings.Method):
+            yield from strings.call_method(self, st, fn, args, kw, line)
             return
         yield from w.call(self, st, fn, args, kw, line)
 
